@@ -5,6 +5,7 @@
 mod dynsite;
 mod gen;
 mod hosts;
+mod program;
 mod spec;
 mod json;
 mod proto;
